@@ -129,6 +129,25 @@ where
     C: Serialize + DeserializeOwned + std::fmt::Debug + Clone + 'static,
 {
     sdjwt_model::sut::install_panic_hook();
+    // every second worker process plays a host application that has logging switched on at the
+    // most verbose level (records are formatted and dropped): the library logs, and what it does
+    // must not depend on whether anybody listens
+    if ctx.index % 2 == 1 {
+        struct Sink;
+        impl log::Log for Sink {
+            fn enabled(&self, _: &log::Metadata) -> bool {
+                true
+            }
+            fn log(&self, record: &log::Record) {
+                let _ = std::hint::black_box(format!("{}", record.args()).len());
+            }
+            fn flush(&self) {}
+        }
+        static SINK: Sink = Sink;
+        if log::set_logger(&SINK).is_ok() {
+            log::set_max_level(log::LevelFilter::Trace);
+        }
+    }
     let beat = start_watchdog(ctx.dir.clone(), ctx.index, if plan.watchdog_secs == 0 { WATCHDOG_SECS } else { plan.watchdog_secs });
     let t0 = Instant::now();
     let journal = RefCell::new(Journal::open(&ctx.dir.join(format!("journal_{}.json", ctx.index))));
@@ -379,6 +398,13 @@ pub fn run_parent(info: &PropInfo, tier: Tier, seed: u64, workers: u32) -> Paren
             .arg(workers.to_string())
             .arg(&dir)
             .stdin(std::process::Stdio::null())
+            // half of the worker processes run in an environment as a packaging / CI system or a
+            // foreign locale sets it up; the properties do not mention the environment
+            .envs(if i % 4 >= 2 {
+                vec![("SOURCE_DATE_EPOCH", "1000000000"), ("TZ", "Asia/Kathmandu"), ("LC_ALL", "tr_TR.UTF-8"), ("LANG", "tr_TR.UTF-8"), ("RUST_LOG", "trace"), ("RUST_BACKTRACE", "0"), ("FAKETIME", "@2030-01-01 00:00:00"), ("DEBUG", "1")]
+            } else {
+                vec![]
+            })
             .spawn()
             .expect("spawn worker");
         running.push((i, child));
